@@ -3,7 +3,7 @@ H = "harness/C14_json.c"
 RJ = {"name": "result_json_replay", "harness": H, "entry": "r_result_json", "native_replay": True, "canary": False, "allow_no_body": ["*"], "unwind": 10, "object_bits": 13,
       "native_sources": "ALL", "native_exclude": ["decoder.c"]}
 GROUPS = [
-    dict(name="format_seg", harness="harness/C14_format.c", enforce="format_seg", replace=["ssw_snprintf4", "logmath_exp"], allow_no_body=["*"], unwind=3, min_postconditions=2, backends=[["--sat-solver", "cadical"]]),
+    dict(name="format_seg", harness="harness/C14_format.c", enforce="format_seg", replace=["ssw_snprintf4", "logmath_exp", "json_escape"], allow_no_body=["*"], unwind=3, min_postconditions=2, backends=[["--sat-solver", "cadical"]]),
     dict(name="result_json_empty", harness="harness/C14_format.c", entry="h_decoder_result_json_empty", enforce="decoder_result_json", defines=["VERIF_JSON_EMPTY"],
          replace=["format_hyp", "decoder_seg_iter", "config_int"], allow_no_body=["*"], unwind=10, min_postconditions=3),
     dict(name="result_json_segments", tiers=("probe",), harness=H, entry="r_result_json", allow_no_body=["*"], unwind=10, object_bits=13, backends=[["--sat-solver", "cadical"]], flags=["--memory-leak-check"], replay=RJ,
@@ -25,7 +25,7 @@ ASSUMPTIONS = [
     "times: the doubles handed to snprintf are checked by native enumeration over the listed ranges (bounded stand-in): the CBMC obligation 'b == start + sf/frate' needs the equivalence of two double dividers and did not finish on any back end",
 ]
 HAND_LEMMAS = ["two-pass agreement of decoder_result_json: sizing and writing pass call format_seg with the same arguments; by the format_seg contract both return the same length, so the write pass fills exactly the sized buffer (induction over the segment list; the bounded whole-function harness that checks this directly did not finish and is kept in tier 'probe')"]
-NOT_COVERED = ["decoder_result_json with segments (loop over the segment iterator)", "format_seg_align / format_align_iter (alignment levels 1 and 2)", "JSON escaping", "probability field", "the items above (except JSON escaping, for which no code exists) are NOT under contract; on real decodes they are exercised only by the bounded native run e2e_invariants (independent JSON parser, levels 0-2, two frame rates) -- never counted as proved"]
+NOT_COVERED = ["decoder_result_json with segments (loop over the segment iterator)", "format_seg_align / format_align_iter (alignment levels 1 and 2)", "json_escape itself (assumed contract in the format_seg proof; its effect is checked by the native end-to-end run on a word with a quote and a backslash)", "probability field", "the items above (except JSON escaping, for which no code exists) are NOT under contract; on real decodes they are exercised only by the bounded native run e2e_invariants (independent JSON parser, levels 0-2, two frame rates) -- never counted as proved"]
 CLAIM = dict(
     text="format_seg, the function that formats one segment of the JSON line, is proved (loop-free, full domain, snprintf replaced by an assumed contract): the sizing call (NULL buffer) and the writing call return the same length, the writing call stays inside its buffer and ends the item with '}' and NUL. The time fields (offset + frame / frame rate, duration / frame rate) of the real format_seg are checked by native enumeration over 43 200 (quick) frame/rate/offset combinations including rates that do not divide 1000. For an EMPTY result (no segments, no alignment) the whole line is proved: it is exactly as long as the block allocated for it, ends with ]} newline NUL, and no byte is written outside the block. The whole line WITH segments and validity for any spelling are NOT decided.",
     note="assumed snprintf contract; native enumeration for the floating-point time fields (bounded); decoder_result_json as a whole, alignment levels and JSON escaping not covered; end-to-end invariants on ~12 real decodes by a bounded native run (native/e2e_invariants.c), never counted as proved",
